@@ -393,10 +393,14 @@ def ref(x):
     if c == "PReset":
         p, t = ref(a[0]), ref(a[1])
         out, pos = [], 0
-        for tv in t.v:
+        for i, tv in enumerate(t.v):
             if tv is not None and tv > 0:
                 pos = 0
             if pos >= len(p.v):
+                if any(x is not None and x > 0 for x in t.v[i + 1:]) or not t.done:
+                    # a later trigger would rewind the exhausted operand: the PReset yields again AFTER its StopIteration;
+                    # what an enclosing pattern makes of that is not fixed by any reference definition - not judged
+                    raise CannotJudge("PReset that revives after its StopIteration")
                 return S(out, p.done)
             out.append(p.v[pos]); pos += 1
         return S(out, t.done)
@@ -457,7 +461,24 @@ def ref(x):
     if c == "PEuclidean":
         k, n = a[0], a[1]
         phase = a[2] if len(a) > 2 else 0
-        if is_pat(k) or is_pat(n) or not (0 <= k <= n and n >= 1) or not (0 <= phase < n):
+        if is_pat(phase):
+            raise CannotJudge("PEuclidean arguments")
+        if is_pat(k) or is_pat(n):
+            # pattern-valued onsets / steps: both are resolved afresh at every step (C12), the position runs on and wraps
+            # at the length of the rhythm of that step; the pattern ends when a parameter stream ends
+            ks, ns = const_or_stream(k), const_or_stream(n)
+            m, done = zip_streams(ks, ns)
+            out, pos = [], phase
+            for i in range(m):
+                ki, ni = ks.v[i], ns.v[i]
+                if type(ki) is not int or type(ni) is not int or not (0 <= ki <= ni and ni >= 1):
+                    raise CannotJudge("PEuclidean arguments")
+                if pos >= ni:
+                    pos = 0
+                out.append(1 if bjorklund(ki, ni)[pos] else None)
+                pos += 1
+            return S(out, done)
+        if not (0 <= k <= n and n >= 1) or not (0 <= phase < n):
             raise CannotJudge("PEuclidean arguments")
         seq = [1 if b else None for b in bjorklund(k, n)]
         return S([seq[(phase + i) % n] for i in range(H)], False)
@@ -911,6 +932,15 @@ class DocGen:
         if c == "PEuclidean":
             n = r.randint(1, 16) if r.random() < 0.7 else r.randint(17, 64)
             k = r.randint(0, n)
+            if r.random() < 0.25:
+                # the number of onsets (and sometimes the number of steps) changes from bar to bar
+                bars = r.randint(2, 4)
+                kk = E("PStutter", E("PSequence", [r.randint(0, n) for _ in range(bars)], 1), n)
+                if r.random() < 0.3:
+                    n2 = r.randint(max(1, n - 3), n + 3)
+                    return E("PEuclidean", E("PSequence", [r.randint(0, min(n, n2)) for _ in range(n + n2)], 1),
+                             E("PSequence", [n] * n + [n2] * n2, 1))
+                return E("PEuclidean", kk, n)
             return E("PEuclidean", k, n) if r.random() < 0.7 else E("PEuclidean", k, n, r.randint(0, n - 1))
         if c == "PLSystem":
             rule = r.choice(["N[-N++N]-N", "N+N", "N-N+N", "N[+N]N", "+N-[N]", "NN", "N[+N][-N]", "[N]-N"])
@@ -996,6 +1026,15 @@ def exhaustive_leaf_cases(rng):
         out.append(E("PSubsequence", E("PSeries", 0, 1), rng.randint(0, 5), n))
         out.append(E("PPingPong", base, rng.randint(1, 2)))
         out.append(E("PImpulse", max(1, n)))
+        if 2 <= n <= 16:
+            # a reset that lands in the middle of a buffering class's first pass over its input (reset clause, nested)
+            k = rng.randint(1, n - 1)
+            trig = E("PSequence", [0] * k + [1] + [0] * (3 * n + 4), 1)
+            for inner in (E("PLoop", base, rng.randint(2, 3)), E("PPingPong", base, 2), E("PStutter", base, 2),
+                          E("PSubsequence", E("PSeries", 0, 1), 1, n), E("PPad", base, n + 3), E("PNoRepeats", base)):
+                out.append(E("PReset", inner, trig))
+            kk = E("PStutter", E("PSequence", [rng.randint(0, n) for _ in range(3)], 1), n)
+            out.append(E("PEuclidean", kk, n))
     return out
 
 
